@@ -4,6 +4,7 @@ import (
 	"encoding/json"
 	"fmt"
 	"reflect"
+	"strings"
 
 	j "github.com/mfcochauxlaberge/jsonapi"
 
@@ -269,8 +270,29 @@ func c02Errors(x *mc.Exec) {
 	c := &DocCase{DataKind: "errors", Schema: BuildSchema([]TypeD{docT, docU}, []bool{true, true})}
 	c.URL = AllFieldsURL(c.Schema, "t")
 	doc := &j.Document{}
-	mode := x.Choose(3, "mode")
+	mode := x.Choose(5, "mode")
 	switch mode {
+	case 3:
+		// every error the library builds itself, with arguments that are empty, need escaping or are long
+		args := []string{"", "a", "x<\"y\">&\\ \u00e9", strings.Repeat("\u00e9", 40)}
+		a := args[x.Choose(len(args), "argument")]
+		ctors := c02ErrCtors(a)
+		k := x.Choose(len(ctors), "constructor")
+		doc.Errors = []j.Error{ctors[k].mk()}
+		c.Desc = fmt.Sprintf("library error %s(%q)", ctors[k].name, a)
+	case 4:
+		// members that are present but degenerate: empty strings inside source / links / meta, empty maps
+		e := j.NewError()
+		e.Title = "t"
+		vals := []any{"", "v", nil, 0.0, false, []any{}, map[string]any{}}
+		e.Source = map[string]any{"pointer": vals[x.Choose(len(vals), "pointer")]}
+		if x.Bool("parameter too") {
+			e.Source["parameter"] = vals[x.Choose(len(vals), "parameter")]
+		}
+		e.Links = map[string]string{"about": []string{"", "https://e"}[x.Choose(2, "about")]}
+		e.Meta = j.Meta{"k": vals[x.Choose(len(vals), "meta")]}
+		doc.Errors = []j.Error{e}
+		c.Desc = fmt.Sprintf("error with source %v links %v meta %v", e.Source, e.Links, e.Meta)
 	case 0:
 		mask := x.Choose(256, "member subset")
 		doc.Errors = []j.Error{subset(mask, "1")}
@@ -296,6 +318,38 @@ func c02Errors(x *mc.Exec) {
 	x.Render(c.Desc)
 	x.R.Sample("errors", c.Desc)
 	c02RoundTrip(x, c, "C02:errors")
+}
+
+type c02Ctor struct {
+	name string
+	mk   func() j.Error
+}
+
+func c02ErrCtors(a string) []c02Ctor {
+	return []c02Ctor{
+		{"NewErrBadRequest", func() j.Error { return j.NewErrBadRequest(a, a) }},
+		{"NewErrMalformedFilterParameter", func() j.Error { return j.NewErrMalformedFilterParameter(a) }},
+		{"NewErrInvalidPageNumberParameter", func() j.Error { return j.NewErrInvalidPageNumberParameter(a) }},
+		{"NewErrInvalidPageSizeParameter", func() j.Error { return j.NewErrInvalidPageSizeParameter(a) }},
+		{"NewErrInvalidFieldValueInBody", func() j.Error { return j.NewErrInvalidFieldValueInBody(a, a, a) }},
+		{"NewErrDuplicateFieldInFieldsParameter", func() j.Error { return j.NewErrDuplicateFieldInFieldsParameter(a, a) }},
+		{"NewErrMissingDataMember", func() j.Error { return j.NewErrMissingDataMember() }},
+		{"NewErrUnknownFieldInBody", func() j.Error { return j.NewErrUnknownFieldInBody(a, a) }},
+		{"NewErrUnknownFieldInURL", func() j.Error { return j.NewErrUnknownFieldInURL(a) }},
+		{"NewErrUnknownParameter", func() j.Error { return j.NewErrUnknownParameter(a) }},
+		{"NewErrUnknownRelationshipInPath", func() j.Error { return j.NewErrUnknownRelationshipInPath(a, a, a) }},
+		{"NewErrUnknownTypeInURL", func() j.Error { return j.NewErrUnknownTypeInURL(a) }},
+		{"NewErrUnknownFieldInFilterParameter", func() j.Error { return j.NewErrUnknownFieldInFilterParameter(a) }},
+		{"NewErrUnknownOperatorInFilterParameter", func() j.Error { return j.NewErrUnknownOperatorInFilterParameter(a) }},
+		{"NewErrInvalidValueInFilterParameter", func() j.Error { return j.NewErrInvalidValueInFilterParameter(a, a) }},
+		{"NewErrUnknownCollationInFilterParameter", func() j.Error { return j.NewErrUnknownCollationInFilterParameter(a) }},
+		{"NewErrUnknownFilterParameterLabel", func() j.Error { return j.NewErrUnknownFilterParameterLabel(a) }},
+		{"NewErrUnauthorized", j.NewErrUnauthorized}, {"NewErrForbidden", j.NewErrForbidden}, {"NewErrNotFound", j.NewErrNotFound},
+		{"NewErrPayloadTooLarge", j.NewErrPayloadTooLarge}, {"NewErrRequestURITooLong", j.NewErrRequestURITooLong},
+		{"NewErrUnsupportedMediaType", j.NewErrUnsupportedMediaType}, {"NewErrTooManyRequests", j.NewErrTooManyRequests},
+		{"NewErrRequestHeaderFieldsTooLarge", j.NewErrRequestHeaderFieldsTooLarge}, {"NewErrInternalServerError", j.NewErrInternalServerError},
+		{"NewErrServiceUnavailable", j.NewErrServiceUnavailable}, {"NewErrNotImplemented", j.NewErrNotImplemented},
+	}
 }
 
 // c02Interleaved: a payload must still be good after OTHER documents have been
@@ -331,8 +385,8 @@ func c02Interleaved(x *mc.Exec) {
 
 func init() {
 	Register(&Prop{
-		ID: "C02",
-		Rule: "Engine A, all choices Full: the complete product 14 primary-data kinds x 5 included lists (ids colliding across types and not, mixed implementations) x 4 metas (nil, {}, scalars, nested/array/null/escapes) x 3 error lists x 6 prefixes x 3 field selections x 2 relationship-data requests; plus every one of the 256 member subsets of one error object, all pairs and triples (with repetition, every order) of 6 representative errors, and errors together with data. and every ordered pair of 8 richer documents marshaled one after the other before the first payload is read back. Each document is marshaled and unmarshaled against the same schema; oracle written in the harness: kind of primary data, members in order by (type,id,selected values), included as a set keyed by (type,id), meta and error members as canonical JSON. Non-trivial = distinct marshaled payload",
+		ID:          "C02",
+		Rule:        "Engine A, all choices Full: the complete product 19 primary-data kinds (incl. a resource without ID and resources with one attribute of every kind at its smallest / largest value, soft and struct-backed) x 5 included lists (ids colliding across types and not, mixed implementations) x 4 metas (nil, {}, scalars, nested/array/null/escapes) x 3 error lists x 6 prefixes x 3 field selections x 2 relationship-data requests; plus every one of the 256 member subsets of one error object, all pairs and triples (with repetition, every order) of 6 representative errors, and errors together with data, every error constructor of the library x 4 argument strings (empty, plain, escape-needing, 40 multi-byte runes), errors whose source/links/meta members are empty strings, null or empty containers. and every ordered pair of 8 richer documents marshaled one after the other before the first payload is read back. Each document is marshaled and unmarshaled against the same schema; oracle written in the harness: kind of primary data, members in order by (type,id,selected values), included as a set keyed by (type,id), meta and error members as canonical JSON. Non-trivial = distinct marshaled payload",
 		Assumptions: []string{"an Identifier document may come back as a single field-less resource with the same type and id (JSON:API cannot tell them apart); weaker reading chosen deliberately", "empty map == absent for meta / links / source"},
 		Harnesses: []Harness{
 			{Name: "C02/docs", Body: c02Docs, Dev: func() int { return 1 }, ShardDepth: 3},
